@@ -547,7 +547,7 @@ trie_rm(struct qb_map *map, const char *key)
 {
 	struct trie *t = (struct trie *)map;
 	struct trie_node *n = trie_lookup(t, key, QB_TRUE);
-	if (n) {
+	if (n && trie_node_alive(n)) {
 		trie_node_deref(t, n);
 		t->length--;
 		return QB_TRUE;
